@@ -29,6 +29,7 @@ structure Sess where
   um    : User := {}
   us    : User := {}
   sparse : Bool := false  -- obs=sparse: used/free are printed by `observe` only
+  blind : Bool := false   -- the spec has given no opinion on an earlier request: no S lines any more
 
 def freshByte : Nat := 238
 
@@ -50,7 +51,19 @@ def phys (dflt : Bool) (r : Option DynamicPool) : String :=
     head ++ String.join ((List.range pgs.length).zipWith (fun i p => s!" pg{i}={fmtList p.bytes}") pgs)
 def inv (r : Option DynamicPool) : Bool := match r with | none => true | some r => decide r.Inv
 
-def lineS' (full : Bool) (hd : String) (s : Sess) : String := s!"S {hd}{if full then obsS s.spec else ""}"
+def lineS' (full : Bool) (hd : String) (s : Sess) : String :=
+  if s.blind then "S ? no opinion since a request equal to the page size" else s!"S {hd}{if full then obsS s.spec else ""}"
+
+/-- C13 says that a pool "never hands out more than its configured size and returns NULL beyond it";
+the library (and `Spec.DPool.malloc`, which records its behaviour) additionally refuses a request
+that is **equal** to the size of the newest page (`size >= top_page_size`).  A library that served
+such a request — from the empty newest page, or from a new page of an expandable pool — would
+satisfy the property text, so in exactly this region the spec line gives no opinion (and none for
+the rest of the session, since the two admissible answers lead to different states). -/
+def noOpinion (grow : Nat → Nat) (f : Spec.DPool) (n : Nat) : Bool :=
+  let span := n + Spec.padOf f.packed f.ab n
+  n ≥ f.top.size &&
+    (span ≤ f.top.size - f.topUsed || (!f.fixed && span ≤ grow f.top.size && grow f.top.size ≤ Spec.pageLimit))
 def lineM' (full : Bool) (hd : String) (s : Sess) : String :=
   s!"M {hd}{if full then obsM s.model else ""} | {phys s.dflt s.model} | {fmtMem s.mem} | {fmtFlags (inv s.model) s.mem}"
 def lineS (hd : String) (s : Sess) : String := lineS' (!s.sparse) hd s
@@ -121,7 +134,7 @@ def step (s : Sess) (c : Cmd) : Sess × String × String :=
       let (q, f') := Spec.DPool.malloc grow freshByte f n (c.fired > 0)
       let hdS := stOf q (c.fired > 0) ++ fmtPtr q ++ (if probe && q.isSome then " absalign=1" else "")
       let (f', us) := afterAllocS s q f' n
-      let s' : Sess := { s with model := some r', spec := some f', mem := m, um, us }
+      let s' : Sess := { s with model := some r', spec := some f', mem := m, um, us, blind := s.blind || noOpinion grow f n }
       (s', lineS hdS s', lineM hdM s')
     | "calloc" =>
       let a := c.arg 0; let b := c.arg 1
@@ -138,7 +151,7 @@ def step (s : Sess) (c : Cmd) : Sess × String × String :=
         | none => ""
       let hdS := stOf q (c.fired > 0) ++ fmtPtr q ++ zS
       let (f', us) := afterAllocS s q f' (a * b)
-      let s' : Sess := { s with model := some r', spec := some f', mem := m, um, us }
+      let s' : Sess := { s with model := some r', spec := some f', mem := m, um, us, blind := s.blind || noOpinion grow f (a * b) }
       (s', lineS hdS s', lineM hdM s')
     | "free" =>
       let pm := freeArg c s.um (some (r.pages.length - 1, 0))
@@ -152,7 +165,7 @@ def step (s : Sess) (c : Cmd) : Sess × String × String :=
     | "destroy" =>
       let m := r.destroy m
       let s' : Sess := { mem := m }
-      (s', "S st=-", s!"M st=- | - | {fmtMem m} | {fmtFlags true m}")
+      (s', (if s.blind then "S ?" else "S st=-"), s!"M st=- | - | {fmtMem m} | {fmtFlags true m}")
     | _ => (s, "S st=- badop", "M st=- badop")
   | _, _ =>
     let s' := { s with mem := m }
